@@ -351,6 +351,10 @@ func npmDef() sysDef {
 				r.TwinDevOpt = true
 			case "twin-alias":
 				r.TwinAlias = true
+			case "twin-alias-opt":
+				// optionalDependencies {pkg: range} next to dependencies {x: npm:pkg@range}: two keys, neither
+				// overrides the other
+				r.TwinAlias, r.Opt = true, true
 			}
 		},
 		// package.json keys are unique: one version cannot declare two dependencies under one alias, nor an alias
@@ -389,8 +393,20 @@ func npmDef() sysDef {
 			}
 			return true
 		},
-		verDecor: []string{"blocked"},
-		applyVer: func(u *Universe, vi int, d string) { u.Vers[vi].Blocked = true },
+		// tag-latest-1: a dist-tag whose name merely begins with "latest" (it is no "latest" for a requirement)
+		verDecor: []string{"blocked", "tag-latest-1"},
+		applyVer: func(u *Universe, vi int, d string) {
+			switch d {
+			case "blocked":
+				u.Vers[vi].Blocked = true
+			case "tag-latest-1":
+				if u.Vers[vi].Tags == "" {
+					u.Vers[vi].Tags = "latest-1"
+				} else {
+					u.Vers[vi].Tags = "latest-1," + u.Vers[vi].Tags
+				}
+			}
+		},
 		pkgDecor: []string{"latest-lowest"},
 		applyPkg: func(u *Universe, pkg string, d string) {
 			first := true
@@ -419,7 +435,7 @@ func npmZeroDef() sysDef {
 	}
 	d.targets = []string{"a", "c"}
 	d.reqs = NPMZeroReqs
-	d.decor = []string{"opt", "dev", "twin-alias"}
+	d.decor = []string{"opt", "dev", "twin-alias", "twin-alias-opt"}
 	return d
 }
 
@@ -555,7 +571,17 @@ func MavenSpaces() []*Space {
 		{vi("g:b", "1"), Req{Pkg: "g:a", Ver: "1"}},
 		{vi("g:b", "1"), Req{Pkg: "g:c", Ver: "1"}},
 	}
-	return []*Space{newSpace(d, "empty", nil), newSpace(d, "chain", chain), newSpace(d, "tree", tree), newSpace(d, "nested-excl", nested), newSpace(d, "excl-version", exclVer)}
+	// classified sibling: the plain g:b is mediated to the root's soft 1; a classified g:b sits at 3; a range on the
+	// plain g:b arrives later, excludes 1 and has 3 as its best match - the version key g:b@3 is then already in the
+	// graph, but for another artifact (the classified one): the plain artifact still has to be reconciled with 1
+	sibling := []tmplReq{
+		{vi("g:r", "1"), Req{Pkg: "g:b", Ver: "1"}},
+		{vi("g:r", "1"), Req{Pkg: "g:a", Ver: "1"}},
+		{vi("g:a", "1"), Req{Pkg: "g:b", Ver: "3", Class: "x"}},
+		{vi("g:a", "1"), Req{Pkg: "g:c", Ver: "1"}},
+		{vi("g:c", "1"), Req{Pkg: "g:b", Ver: "[2,)"}},
+	}
+	return []*Space{newSpace(d, "empty", nil), newSpace(d, "chain", chain), newSpace(d, "tree", tree), newSpace(d, "nested-excl", nested), newSpace(d, "excl-version", exclVer), newSpace(d, "classified-sibling", sibling)}
 }
 
 // ---------------- PyPI ----------------
@@ -677,7 +703,17 @@ func PyPISpaces() []*Space {
 		{vi("b", "1.0"), Req{Pkg: "a", Ver: "<2.0"}},
 		{vi("c", "2.0"), Req{Pkg: "b", Ver: "<2.0"}},
 	}
-	return []*Space{newSpace(d, "empty", nil), newSpace(d, "conflict", conflict), newSpace(d, "extras", extras), newSpace(d, "cycle-pre", cycle), newSpace(d, "repin", repin), newSpace(d, "loop-repin", loop)}
+	// extras across a backtrack: a is requested with extra x; a@2.0 cannot be installed (neither version of b it
+	// needs has an installable requirement), so the resolver backtracks, marks a@2.0 incompatible on a's criterion and
+	// pins a@1.0, whose requirement on c is guarded by the extra: the rewritten criterion must still carry the extra
+	extrasBack := []tmplReq{
+		{vi("r", "1.0"), Req{Pkg: "a", Ver: "", Extras: "x"}},
+		{vi("a", "2.0"), Req{Pkg: "b", Ver: ">=1.0"}},
+		{vi("b", "2.0"), Req{Pkg: "c", Ver: ">3.0"}},
+		{vi("b", "1.0"), Req{Pkg: "c", Ver: ">3.0"}},
+		{vi("a", "1.0"), Req{Pkg: "c", Ver: ">=1.0", Env: `extra == "x"`}},
+	}
+	return []*Space{newSpace(d, "empty", nil), newSpace(d, "conflict", conflict), newSpace(d, "extras", extras), newSpace(d, "cycle-pre", cycle), newSpace(d, "repin", repin), newSpace(d, "loop-repin", loop), newSpace(d, "extras-backtrack", extrasBack)}
 }
 
 // AllSpaces lists every family used for histories and schedules (C05). The npm alias-name family is left to C06: with
